@@ -77,6 +77,8 @@ def detect(name, props=None, tier="quick"):
     a = sh(["git", "-C", "/repo", "apply", os.path.join(d, "patch.diff")])
     assert a.returncode == 0, a.stderr
     out = {}
+    evbak = "/tmp/seed_evidence_backup"; shutil.rmtree(evbak, ignore_errors=True)
+    shutil.copytree(os.path.join(VERIF, "evidence"), evbak)      # evidence must describe runs against /repo itself, never a mutated tree
     try:
         for p in props:
             t0 = time.time()
@@ -92,7 +94,8 @@ def detect(name, props=None, tier="quick"):
     finally:
         sh(["git", "-C", "/repo", "checkout", "--", "."])
         # translators may have rewritten Gen files for the mutated tree: restore them from the clean tree
-        sh([os.path.join(VERIF, "check"), "--help"])
+        sh([PY, "-c", "import sys; sys.path.insert(0, %r); import vlib; print(vlib.translate())" % os.path.join(VERIF, "harness")])
+        shutil.rmtree(os.path.join(VERIF, "evidence"), ignore_errors=True); shutil.copytree(evbak, os.path.join(VERIF, "evidence")); shutil.rmtree(evbak, ignore_errors=True)
     meta["detection"] = dict(tier=tier, results=out, detected=any(v["rc"] == 1 for v in out.values()))
     json.dump(meta, open(os.path.join(d, "meta.json"), "w"), indent=1)
     return out
